@@ -22,7 +22,7 @@ def make(kind='m1', le=True, fmt=32, addr=8):
     lineA_len = None
     # ---- line programs first (their offsets are needed by DW_AT_stmt_list)
     hA = LP.Header(version=4, dirs=(b'/src',), files=((b'a.c', 1, 0, 0), (b'a.h', 1, 0, 0)))
-    progA = b'\x00' + leb.uleb(1 + addr) + b'\x02' + dp4.address(0x401000) + b'\x05\x03' + b'\x14' + b'\x02\x04' + b'\x0a' + b'\x21' + b'\x00\x02\x04\x07' + b'\x5b' + b'\x02\x08' + b'\x00\x01\x01'
+    progA = b'\x00' + leb.uleb(1 + addr) + b'\x02' + dp4.address(0x401000) + b'\x05\x03' + b'\x14' + b'\x02\x04' + b'\x0a' + b'\x21' + b'\x00\x02\x04\x07' + b'\x5b' + b'\x02\x08' + b'\x00\x0a\x03gen.c\x00\x01\x00\x00' + b'\x00\x01\x01'       # ... DW_LNE_define_file (it extends the header's file table while decoding)
     hB = LP.Header(version=5, v5_dirs=[{'path': b'/src'}, {'path': b'inc'}], v5_files=[{'path': b'b.c', 'directory_index': 0}, {'path': b'b.h', 'directory_index': 1}],
                    dir_format=(('path', 'line_strp'),), file_format=(('path', 'line_strp'), ('directory_index', 'udata')))
     progB = b'\x00' + leb.uleb(1 + addr) + b'\x02' + dp5.address(0x402000) + b'\x03\x09' + b'\x01' + b'\x2f' + b'\x06' + b'\x3d' + b'\x02\x10' + b'\x00\x01\x01'
